@@ -383,7 +383,11 @@ struct Url {
 }
 
 fn parse_url(u: &str) -> Option<Url> {
-    let rest = u.strip_prefix("http://")?;
+    // the scheme is case-insensitive (RFC 3986 3.1)
+    if u.len() < 7 || !u[..7].eq_ignore_ascii_case("http://") {
+        return None;
+    }
+    let rest = &u[7..];
     let (hostport, pq) = match rest.find(|c| c == '/' || c == '?') {
         Some(i) => (&rest[..i], &rest[i..]),
         None => (rest, ""),
